@@ -671,7 +671,36 @@ def decodeStep (reset : Bool) (s : DecState) (c : Call) : DecState × R Bytes :=
     let x := decodeClass cls reset { c with palette := paletteName c } (s c.depth)
     (s.set c.depth x.1, x.2)
 
+/-- a decode request as `bitd2bmp` reads it from `castData`: the left offset is any integer -/
+structure Request where
+  depth : Nat
+  width : Nat
+  height : Nat
+  padW : Int
+  padH : Int
+  palette : String
+  clut : Bytes
+  fdata : Bytes
+  deriving Repr, DecidableEq
+
+/-- the first statement of `bitd2bmp` ("Sometimes the padding is negative"): a negative left offset widens the canvas by
+    that amount and becomes 0. What is left is a `Call`. (A negative top offset is treated the same way inside every
+    decoder: `fixPad`.) -/
+def Request.normalise (r : Request) : Call :=
+  if r.padW < 0 then
+    { depth := r.depth, width := r.width + r.padW.natAbs, height := r.height, padW := 0, padH := r.padH,
+      palette := r.palette, clut := r.clut, fdata := r.fdata }
+  else
+    { depth := r.depth, width := r.width, height := r.height, padW := r.padW.toNat, padH := r.padH,
+      palette := r.palette, clut := r.clut, fdata := r.fdata }
+
+/-- bitd2bmp.bitd2bmp on integer offsets, as a transition of the module state -/
+def decodeStepI (reset : Bool) (s : DecState) (r : Request) : DecState × R Bytes := decodeStep reset s r.normalise
+
 /-- the function a caller sees in a fresh process -/
 def bitd2bmp (c : Call) : R Bytes := (decodeStep true DecState.init c).2
+
+/-- bitd2bmp.bitd2bmp on integer offsets in a fresh process -/
+def bitd2bmpI (r : Request) : R Bytes := bitd2bmp r.normalise
 
 end Drx.Bitd
